@@ -147,7 +147,9 @@ def worker(k, todo, jobs):
     out = open(os.path.join(ROOT, "results.%d.jsonl" % k), "a")
     try:
         for m in todo:
+          try:
             t0 = time.time()
+            sh("git checkout -- .", cwd=wt)
             before, after = apply(wt, m)
             rec = dict(m, before=before.strip()[:160], after=after.strip()[:160])
             rc, o = sh("cargo test --workspace --no-fail-fast --offline 2>&1 | grep -E '^test result|^error|FAILED|panicked' | head -40", cwd=wt, env=env, timeout=3000)
@@ -160,13 +162,20 @@ def worker(k, todo, jobs):
                 rec["status"] = "passes-existing-tests"
                 rec["checks"] = {}
                 for c in FILES[m["file"]]:
-                    e2 = dict(os.environ, VERIF_REPO=wt, VERIF_JOBS=str(jobs), VERIF_SEED="0")
+                    e2 = dict(os.environ, VERIF_REPO=wt, VERIF_JOBS=str(jobs), VERIF_SEED="0", VERIF_CALL_TIMEOUT="240")
                     t1 = time.time()
                     try:
-                        p = subprocess.run(["python3", "-m", "mon", "check", c, "--tier", "quick"], cwd="/verif", capture_output=True, text=True, env=e2, timeout=1500)
-                        code = p.returncode
-                        classes = sorted({l.split("class=")[1].split(" ")[0] for l in p.stdout.splitlines() if l.startswith("  class=")})[:4]
-                        inc = [l[:200] for l in p.stdout.splitlines() if l.startswith("INCONCLUSIVE")][:2]
+                        pr = subprocess.Popen(["python3", "-m", "mon", "check", c, "--tier", "quick"], cwd="/verif", stdout=subprocess.PIPE, stderr=subprocess.DEVNULL, text=True, env=e2, start_new_session=True)
+                        try:
+                            so, _ = pr.communicate(timeout=1500)
+                        except subprocess.TimeoutExpired:
+                            import signal
+                            os.killpg(pr.pid, signal.SIGKILL)
+                            pr.wait()
+                            raise
+                        code = pr.returncode
+                        classes = sorted({l.split("class=")[1].split(" ")[0] for l in so.splitlines() if l.startswith("  class=")})[:4]
+                        inc = [l[:200] for l in so.splitlines() if l.startswith("INCONCLUSIVE")][:2]
                     except subprocess.TimeoutExpired:
                         code, classes, inc = 3, [], ["timeout"]
                     rec["checks"][c] = {"rc": code, "classes": classes, "inconclusive": inc, "s": round(time.time() - t1)}
@@ -178,6 +187,10 @@ def worker(k, todo, jobs):
             out.write(json.dumps(rec, ensure_ascii=False) + "\n")
             out.flush()
             sh("git checkout -- .", cwd=wt)
+          except Exception as e:   # one bad mutant must not end the worker
+            import traceback
+            sys.stderr.write("mutant %s: %s\n%s\n" % (m.get("id"), e, traceback.format_exc()))
+            sys.stderr.flush()
     finally:
         sh("git -C /repo worktree remove --force %s" % wt)
         shutil.rmtree(tgt, ignore_errors=True)
